@@ -7,7 +7,7 @@ Extraction "C16_model.ml" wire_anchor
   dec32 enc32 dec64 enc64 dec80 enc80 nextafter32 nextafter64
   flt fgt fle fge feq fne fneg fadd fsub fmul fdiv of_Z pow2 to_sint
   g_is_nan g_is_inf g_is_finite g_abs g_sgn g_min g_max
-  g_floor g_ceil g_trunc g_round g_fmod
+  g_floor g_ceil g_trunc g_round g_fmod g_remainder
   e_abs signbit_fb32 signbit_fb64 e_copysign_fb e_rint_fb e_lrint_fb e_fmin e_fmax e_fdim e_isfinite
   e_lerp e_hypot_ladder e_hypot3_ladder e_midpoint
   spec_floor spec_ceil spec_trunc spec_round spec_rint spec_lrint
